@@ -332,8 +332,24 @@ impl Display for Format<'_, Formula> {
         match self.0 {
             Formula::AtomicFormula(a) => Format(a).fmt(f),
             Formula::UnaryFormula { formula, .. } => self.fmt_unary(Format(formula.as_ref()), f),
-            Formula::QuantifiedFormula { formula, .. } => {
-                self.fmt_unary(Format(formula.as_ref()), f)
+            Formula::QuantifiedFormula {
+                quantification,
+                formula,
+            } => {
+                // A comparison that begins with a variable must be parenthesized:
+                // `forall X Y = 3` would be read back as a quantification over X and Y.
+                let inner = Format(formula.as_ref()).to_string();
+                let mut chars = inner.chars();
+                let begins_with_variable = match (chars.next(), chars.next()) {
+                    (Some(c), _) if c.is_ascii_uppercase() => true,
+                    (Some('_'), Some(c)) if c.is_ascii_uppercase() => true,
+                    _ => false,
+                };
+                if begins_with_variable {
+                    write!(f, "{} ({inner})", Format(quantification))
+                } else {
+                    self.fmt_unary(Format(formula.as_ref()), f)
+                }
             }
             Formula::BinaryFormula { lhs, rhs, .. } => {
                 self.fmt_binary(Format(lhs.as_ref()), Format(rhs.as_ref()), f)
